@@ -84,6 +84,7 @@ pub fn loop_scenario(
         shards: 1,
         nontrivial: true,
         unbounded: false,
+        loop_body: true,
     }
 }
 
@@ -408,5 +409,6 @@ pub fn select_scenario(
         shards: 1,
         nontrivial: true,
         unbounded: false,
+        loop_body: false,
     }
 }
